@@ -46,7 +46,7 @@ Theorem src_parser_arguments e cr ascii ws f : src_import e (src_module cr) = IF
     match f ascii (ws ++ repeat (L "00000000") (8 - length ws)) with
     | PRetJ JNull | PRetEmpty | PNone | PRaise _ | PRaiseImport _ => Some []
     | PRetJ j => Some [(L "SRC Details", j)]
-    | PRetT t => Some [(L "@loads_strict:SRC Details", js t)]
+    | PRetT t => src_details_text t
     | PNonStr => None
     end.
 Proof. intros Hi. unfold src_details, pad8. rewrite Hi. destruct (f ascii _) as [[]| | | | | |]; reflexivity. Qed.
